@@ -278,6 +278,45 @@ def h04d_shards(tier):
     return out
 
 
+# ---------------------------------------------------------------- H04a3 mnemonic-rendered fields of records decoded from wire
+
+ERR_POOL = [0, 1, 15, 16, 17, 18, 22, 23, 4095, 4096, 4097, 32767, 32768, 65534, 65535]
+TYPE_POOL = [0, 1, 41, 250, 255, 256, 32768, 65280, 65534, 65535]
+
+
+def h04a3(kind: int, pick: int) -> bool:
+    """Records whose text form prints a mnemonic (TSIG / TKEY error, RRSIG / SIG covered type, NSEC-style bitmaps are H02f): decoded from
+    wire with boundary values in that field, the value is refused with FormError or renders to text and wire without a foreign exception."""
+    alg = b"\x0bhmac-sha256\x00"
+    if kind == 0:
+        err = ERR_POOL[pick]
+        buf = alg + (1).to_bytes(6, "big") + (300).to_bytes(2, "big") + b"\x00\x02\xaa\xbb" + (7).to_bytes(2, "big") + err.to_bytes(2, "big") + b"\x00\x00"
+        t = dns.rdatatype.TSIG
+        c = dns.rdataclass.ANY
+    elif kind == 1:
+        err = ERR_POOL[pick]
+        buf = alg + (1).to_bytes(4, "big") + (2).to_bytes(4, "big") + (3).to_bytes(2, "big") + err.to_bytes(2, "big") + b"\x00\x01k\x00\x00"
+        t = dns.rdatatype.TKEY
+        c = dns.rdataclass.ANY
+    else:
+        cov = TYPE_POOL[pick % len(TYPE_POOL)]
+        buf = cov.to_bytes(2, "big") + bytes([8, 2]) + (300).to_bytes(4, "big") + (2).to_bytes(4, "big") + (1).to_bytes(4, "big") + (9).to_bytes(2, "big") + b"\x00" + b"\x01\x02"
+        t = dns.rdatatype.RRSIG if kind == 2 else dns.rdatatype.SIG
+        c = dns.rdataclass.IN
+    try:
+        rd = dns.rdata.from_wire(c, t, buf, 0, len(buf))
+    except dns.exception.FormError:
+        hit("refused")
+        return True
+    hit("accepted")
+    rd.to_text()
+    return rd.to_wire() == buf
+
+
+def h04a3_pre(kind, pick):
+    return 0 <= kind <= 3 and 0 <= pick < len(ERR_POOL)
+
+
 # ---------------------------------------------------------------- H04d2 long tokens (length limits counted in octets)
 
 LONG_TOKENS = ["a" * 63, "a" * 64, "a" * 255, "a" * 256, "\\200" * 63, "\\200" * 64, "\\200" * 127, "\\200" * 128, "\\200" * 255, "\\200" * 256,
@@ -379,6 +418,11 @@ HARNESSES = [
             encodes=["dns.rdata.from_wire", "dns.rdata.from_wire_parser", "dns.exception.ExceptionWrapper", "dns.rdata.Rdata.to_text", "dns.rdata.Rdata.to_wire"],
             bound="the C02/H02a shard plan (every implemented type; pools for the text/float-converting types); to_wire() on every accepted value, to_text() for the pooled types and the character-string / name / bitmap types",
             stubs=["E1", "E2", "E3", "E4", "E5", "E12"], outside="longer RDATA; to_text of base64/hex-only types on symbolic content"),
+    Harness("H04a3", h04a3, h04a3_pre, lambda tier: [{"_timeout": 300, "_path_timeout": 60}], kind="finite selection, exhaustive",
+            encodes=["dns.rdtypes.ANY.TSIG.TSIG.__init__", "dns.rdtypes.ANY.TSIG.TSIG.to_styled_text", "dns.rdtypes.ANY.TKEY.TKEY.to_styled_text",
+                     "dns.rdtypes.ANY.RRSIG.RRSIG.to_styled_text", "dns.rcode.to_text", "dns.rdatatype.to_text"],
+            bound="TSIG and TKEY with 15 boundary values of the 16-bit error field (0 .. 65535 incl. 4095 / 4096), RRSIG and SIG with 10 boundary covered types; from_wire then to_text and to_wire",
+            stubs=[], outside="other values (the renderers go through enum lookups: one concrete value per path)"),
     Harness("H04b", h04b, h04b_pre, h04b_shards, kind="universal",
             encodes=["dns.message.from_wire", "dns.message._WireReader.read", "dns.message._WireReader._get_question",
                      "dns.message._WireReader._get_section", "dns.message._WireReader._add_error", "dns.message.Message._parse_rr_header",
